@@ -71,6 +71,9 @@ func (d damage) String() string {
 	case "truncate":
 		return fmt.Sprintf("%#x: truncate to %d bytes", d.Key, d.Len)
 	}
+	if d.Kind == "hollow" {
+		return fmt.Sprintf("%#x: replaced by a well-formed record without packet", d.Key)
+	}
 	return fmt.Sprintf("%#x: remove", d.Key)
 }
 
@@ -128,7 +131,9 @@ func TestC16Damage(t *testing.T) {
 					continue
 				}
 				v := snapshot[key]
-				d := damage{Key: key, Kind: rapid.SampledFrom([]string{"flip", "flip", "truncate", "remove"}).Draw(rt, "kind")}
+				// ("hollow": the value is replaced by a well-formed record which
+				// holds no packet at all: 12 bytes with a matching checksum)
+				d := damage{Key: key, Kind: rapid.SampledFrom([]string{"flip", "flip", "truncate", "remove", "hollow"}).Draw(rt, "kind")}
 				switch d.Kind {
 				case "flip":
 					d.Pos = rapid.IntRange(0, len(v)-1).Draw(rt, "pos")
@@ -204,7 +209,7 @@ func TestC16Damage(t *testing.T) {
 							continue // no letters in it
 						}
 					case "directory":
-						name = fmt.Sprintf("%05x", rapid.SampledFrom([]int{0x0abcd, 0x00007, 0x1ffff, 0x0c00f}).Draw(rt, "dirName"))
+						name = fmt.Sprintf("%05x", rapid.SampledFrom([]int{0x0abcd, 0x00007, 0x1ffff, 0x0fff0}).Draw(rt, "dirName")) // (not where a publish of this history will store)
 					case "spool-leftover":
 						name = fmt.Sprintf("%05x.spool", rapid.SampledFrom([]int{0x8000, 0xc000, 0x8001, 0x10001}).Draw(rt, "spoolKey"))
 					case "foreign-file":
@@ -241,6 +246,8 @@ func TestC16Damage(t *testing.T) {
 						store[d.Key] = v
 					case "truncate":
 						store[d.Key] = append([]byte(nil), v[:d.Len]...)
+					case "hollow":
+						store[d.Key] = storedRecord(nil, 7)
 					case "remove":
 						delete(store, d.Key)
 					}
